@@ -242,6 +242,21 @@ def execute(mat, ctx):
         if extra["seq"][len(geom[0]) + geom[1]:][:geom[2]] not in ov and rc(extra["seq"][len(geom[0]) + geom[1]:][:geom[2]]) not in ov:
             ex = gen.make_record({"id": "extra", "seq": extra["seq"], "features": [{"type": "misc_feature", "parts": [[0, 5, 1]], "quals": {"uid": ["extra.0"]}}]})
             natural("unused-module-warning", shared + [ex])
+            # the same call with warnings escalated to errors (the documented way of refusing leftovers): the warning is
+            # raised inside assemble(), wherever the library issues it
+            v2, ms2 = ents(shared + [ex])
+            _mon.tag = {"scenario": "unused-module-warning-escalated-to-error"}
+            _mon.keep_filters = True
+            ctx.count("c07_escalated_warning_calls")
+            try:
+                with warnings.catch_warnings():
+                    warnings.simplefilter("error")
+                    v2.assemble(*ms2, id="p", name="p")
+            except Exception:
+                pass
+            finally:
+                _mon.keep_filters = False
+            retry("unused-module-warning-escalated-to-error")
     except RuntimeError:
         pass
     ctx.sample({"enzyme": mat["enzyme"], "modules": nm, "crossings": ["%s:%s#%d" % c for c in crossings][:8],
